@@ -24,6 +24,7 @@ package mux
 // lastAdded: the request handed to the most recent AddReq/AddPriorReq (ghost, written inside the critical section)
 //@ ghost lastAdded interface{}
 //@ ghost lastQ *Q
+//@ ghost lastPrior bool
 //@ pure errsOK() bool = ErrClosed != nil && ErrQFull != nil && ErrSync != nil && ErrClosed != ErrQFull && ErrClosed != ErrSync && ErrQFull != ErrSync
 //@ pure same(l *list.List) bool = l.lcnt == cs(l.lcnt) && l.lmem == cs(l.lmem) && (forall e *list.Element :: { e.lrk } cs(l.lmem[e]) ==> e.lrk == cs(e.lrk)) && (forall e *list.Element :: { e.Value } cs(l.lmem[e]) ==> e.Value == cs(e.Value))
 //@ pure kept(l *list.List) bool = (forall e *list.Element :: { e.lrk } cs(l.lmem[e]) ==> e.lrk == cs(e.lrk)) && (forall e *list.Element :: { e.Value } cs(l.lmem[e]) ==> e.Value == cs(e.Value))
@@ -38,8 +39,9 @@ package mux
 //@   ensures #closedsame a.closed == cs(a.closed)
 //@   atrelease lastAdded = req
 //@   atrelease lastQ = a
-//@   ensures #recorded lastAdded == req && lastQ == a
-//@   modifies region($chanclosed), Q.closed, a.reqList.lmem, a.reqList.lcnt, list.Element.lrk, list.Element.Value, lastAdded, lastQ
+//@   atrelease lastPrior = false
+//@   ensures #recorded lastAdded == req && lastQ == a && lastPrior == false
+//@   modifies region($chanclosed), Q.closed, a.reqList.lmem, a.reqList.lcnt, list.Element.lrk, list.Element.Value, lastAdded, lastQ, lastPrior
 //
 //@ func Q.AddPriorReq
 //@   requires !held(a.lock) && a.reqList != nil && errsOK()
@@ -49,8 +51,9 @@ package mux
 //@   ensures #nolost forall e *list.Element :: { cs(a.reqList.lmem[e]) } cs(a.reqList.lmem[e]) ==> a.reqList.lmem[e]
 //@   atrelease lastAdded = req
 //@   atrelease lastQ = a
-//@   ensures #recorded lastAdded == req && lastQ == a
-//@   modifies region($chanclosed), Q.closed, a.reqList.lmem, a.reqList.lcnt, list.Element.lrk, list.Element.Value, lastAdded, lastQ
+//@   atrelease lastPrior = true
+//@   ensures #recorded lastAdded == req && lastQ == a && lastPrior == true
+//@   modifies region($chanclosed), Q.closed, a.reqList.lmem, a.reqList.lcnt, list.Element.lrk, list.Element.Value, lastAdded, lastQ, lastPrior
 //
 //@ func Q.Close
 //@   requires !held(a.lock) && a.reqList != nil
